@@ -70,8 +70,14 @@ Used == {cfgP[p] : p \in DOMAIN cfgP}
 N == Len(cfgP)
 \* the done-callbacks registered on input i so far: one per argument position, bound to its index
 LockOps(cbs, i) == LET ps == AscSeq({p \in cbs : cfgP[p] = i}) IN [k \in DOMAIN ps |-> <<"lock", ps[k]>>]
-ChainOps(ch) == IF Bug = "no_fanout" THEN <<>>
-                ELSE LET ps == AscSeq(ch) IN [k \in DOMAIN ps |-> <<"cin", cfgP[ps[k]]>>]
+\* seeded model bug fanout_dict (change C15-r4m1): ONE callback of the output walks over a dict of the pending inputs that
+\* handle_done shrinks on every successful completion; a completion in the middle of the walk ("dictionary changed size
+\* during iteration", swallowed by the future's callback loop) ends it - the remaining inputs are never asked to cancel.
+\* The walk remembers the size it started with (third component).
+ChainOps(ch, rem) == IF Bug = "no_fanout" THEN <<>>
+                     ELSE LET ps == AscSeq(ch) IN
+                            [k \in DOMAIN ps |-> IF Bug = "fanout_dict" THEN <<"cin", cfgP[ps[k]], rem>> ELSE <<"cin", cfgP[ps[k]]>>]
+IsWalkOp(o) == o[1] = "cin" /\ Len(o) = 3
 
 Init ==
   /\ cfgK \in [InputIds -> Kinds] /\ cfgP \in PosChoices /\ cfgU \in CancelVals
@@ -141,7 +147,7 @@ Exec(s, t) ==
        [] k = "ocan" ->     \* zipped.cancel(): state CANCELLED, the chain_cancel callbacks, then the MapFuture's callback
             IF s.zst = "PENDING"
               THEN [s EXCEPT !.zst = "CANCELLED", !.ures = IF x = 1 THEN 1 ELSE @,
-                             !.todo[t] = ChainOps(s.chain) \o (IF x = 0 THEN <<<<"mres", 0>>>> ELSE <<>>) \o more]
+                             !.todo[t] = ChainOps(s.chain, s.remaining) \o (IF x = 0 THEN <<<<"mres", 0>>>> ELSE <<>>) \o more]
               ELSE [s EXCEPT !.ures = IF x = 1 THEN (IF s.zst = "CANCELLED" THEN 1 ELSE 0) ELSE @, !.todo[t] = more]
        [] k = "mres" -> Mirror([s EXCEPT !.todo[t] = more])
        [] k = "mcan" ->     \* MapFuture.cancel() of the f_sequence / f_traverse output
@@ -151,8 +157,10 @@ Exec(s, t) ==
               THEN [s EXCEPT !.ures = 0, !.todo[t] = more]
             ELSE IF s.zst = "FINISHED"           \* cannot happen: the layers follow inline
               THEN [s EXCEPT !.ures = 0, !.todo[t] = more]
-            ELSE [s EXCEPT !.zst = "CANCELLED", !.todo[t] = ChainOps(s.chain) \o <<<<"mfin", 0>>>> \o more]
+            ELSE [s EXCEPT !.zst = "CANCELLED", !.todo[t] = ChainOps(s.chain, s.remaining) \o <<<<"mfin", 0>>>> \o more]
        [] k = "mfin" -> [s EXCEPT !.mst = "CANCELLED", !.ures = 1, !.todo[t] = more]
+       [] k = "cin" /\ Len(h) = 3 /\ h[3] # s.remaining ->      \* (model bug only) the dict changed under the walk
+            [s EXCEPT !.todo[t] = SelectSeq(more, LAMBDA o : ~IsWalkOp(o))]
        [] k = "cin" ->
             IF s.ist[x] = 0
               THEN [s EXCEPT !.ist[x] = 4, !.todo[t] = LockOps(s.cb, x) \o more,
